@@ -173,8 +173,9 @@ def hInnovHistory : Handler := fun j => do
   match run with
   | .error e =>
     let parts := e.splitOn "|"
-    let sg := parts.head!
-    if sg == "driver" then throw e
+    -- a start genome with genes out of innovation order is outside the stated domain (Ascending): its failures carry their own signature
+    let sg := (if ascending then "" else "unsorted-start:") ++ parts.head!
+    if parts.head! == "driver" then throw e
     return { corr := twin != "differs" && initCorr, spec := false, nontrivial := false, cls := cls, sig := "innov:" ++ sg,
              detail := e, props := [("C03", false, e, "innov:" ++ sg)] }
   | .ok (h, okGens, errCls, contiguous) =>
